@@ -225,19 +225,29 @@ func main() {
 	ovPath := filepath.Join(gdir, "overlay.json")
 	os.WriteFile(ovPath, ovb, 0o644)
 
-	// 2. build the worker (registry linked in through the overlay) and the generator
-	workerBin := filepath.Join(gdir, "worker")
+	// 2. build the worker (registry linked in through the overlay) and the generator.
+	// Binaries, results and regeneration scratch live in a private temp directory (the shared
+	// build directory may be cleaned by concurrent runs).
+	scratch, err := os.MkdirTemp("", "c13-run-")
+	if err != nil {
+		report.Fatal("%v", err)
+	}
+	fatal := func(f string, a ...any) {
+		os.RemoveAll(scratch)
+		report.Fatal(f, a...)
+	}
+	workerBin := filepath.Join(scratch, "worker")
 	args := []string{"build"}
 	if _, err := os.Stat(filepath.Join(bdir, "alt.mod")); err == nil && repo != "/repo" {
 		args = append(args, "-modfile="+filepath.Join(bdir, "alt.mod"))
 	}
 	args = append(args, "-tags", "verif", "-overlay", ovPath, "-o", workerBin, "./harness/c13/worker")
 	if outp, err := run(root, goEnv(), 10*time.Minute, "go", args...); err != nil {
-		report.Fatal("worker does not build against the discovered models (%v):\n%s", err, outp)
+		fatal("worker does not build against the discovered models (%v):\n%s", err, outp)
 	}
-	genBin := filepath.Join(gdir, "gondn_tlv_gen")
+	genBin := filepath.Join(scratch, "gondn_tlv_gen")
 	if outp, err := run(repo, goEnv("GOFLAGS=-mod=readonly"), 10*time.Minute, "go", "build", "-o", genBin, "./std/cmd/gondn_tlv_gen"); err != nil {
-		report.Fatal("generator does not build from the tree under test (%v):\n%s", err, outp)
+		fatal("generator does not build from the tree under test (%v):\n%s", err, outp)
 	}
 
 	// 3+4. run worker and regeneration concurrently
@@ -250,7 +260,7 @@ func main() {
 	var wout workerOut
 	var werr error
 	var wlog string
-	resPath := filepath.Join(gdir, "worker-result.json")
+	resPath := filepath.Join(scratch, "worker-result.json")
 	wg.Add(1)
 	go func() {
 		defer wg.Done()
@@ -266,11 +276,6 @@ func main() {
 		}
 		werr = json.Unmarshal(b, &wout)
 	}()
-	scratch, err := os.MkdirTemp("", "c13-gen-")
-	if err != nil {
-		report.Fatal("%v", err)
-	}
-	defer os.RemoveAll(scratch)
 	genRuns := 3
 	gres := make([]genResult, len(sc.GenDirs))
 	var gwg sync.WaitGroup
@@ -290,7 +295,7 @@ func main() {
 	for _, d := range sc.GenDirs {
 		genSet[d] = true
 	}
-	var orphan []string
+	orphan := []string{}
 	for _, f := range sc.Files {
 		if !genSet[filepath.Dir(f)] {
 			orphan = append(orphan, f)
